@@ -193,7 +193,29 @@ func statusEqual(a, b kruiseappsv1alpha1.CloneSetStatus) bool {
 		a.ExpectedUpdatedReplicas == b.ExpectedUpdatedReplicas
 }
 
+// Do performs the unit step; pod steps also refresh the status counters in the same transition (the real
+// controller writes its status at the end of every sync), while observing a new generation / revision is a
+// step of its own so that the window "generation != observedGeneration" stays visible to the controllers.
 func (e *CloneSetEnv) Do(w *World, label string) error {
+	if err := e.do(w, label); err != nil {
+		return err
+	}
+	if label == "observe" {
+		return nil
+	}
+	cs, pods := e.load(w)
+	if cs == nil || cs.Status.ObservedGeneration != cs.Generation || cs.Status.UpdateRevision != RevisionOf(cs.Name, &cs.Spec.Template) {
+		return nil
+	}
+	want := e.desiredStatus(cs, pods)
+	if statusEqual(cs.Status, want) {
+		return nil
+	}
+	cs.Status = want
+	return w.Raw.Status().Update(context.TODO(), cs)
+}
+
+func (e *CloneSetEnv) do(w *World, label string) error {
 	cs, pods := e.load(w)
 	if cs == nil {
 		return fmt.Errorf("cloneset gone")
